@@ -139,6 +139,14 @@ def concat(a, b):
     return list(a) + list(b)
 
 
+def rev(l):
+    return list(reversed(list(l)))
+
+
+def rev_acc(l, acc):
+    return list(reversed(list(l))) + list(acc)
+
+
 def nth(l, i):
     return l[i] if 0 <= i < len(l) else None
 
